@@ -8,6 +8,10 @@ open C04_io
 
 let schema_arr = Array.of_list schemas
 
+(* the pinned schema with the same (api, direction, version) as the generated one *)
+let golden_of (m : msg_schema) : msg_schema option =
+  List.find_opt (fun g -> g.ms_api = m.ms_api && g.ms_response = m.ms_response && g.ms_version = m.ms_version) golden_schemas
+
 (* ---- parse a value ---- *)
 let parse_value (s : string) : value =
   let toks = ref (String.split_on_char ',' s) in
@@ -115,11 +119,26 @@ let eval (op : string) (a : string list) : string =
                 if k <> m.ms_api || ver <> m.ms_version || c <> corr then "HEADER-MISMATCH"
                 else hex_of_bytes cid' ^ ":" ^ show m.ms_ty v') in
        hex_of_bytes f ^ " " ^ back)
-  | "dec", [idx; f] ->
+  | ("dec" | "decnd"), [idx; f] ->
     let m = schema_arr.(int_of_string idx) in
     let f = bytes_of_hex f in
     class_of (read_response cfg m.ms_flex m.ms_ty f)
       (fun (c, v') -> "ok " ^ hex_of_z c ^ " " ^ show m.ms_ty v')
+  | "encg", [idx; corr; cid; v] ->
+    (* the canonical frame according to the PINNED schema; "same" when the generated schema equals it *)
+    let m = schema_arr.(int_of_string idx) in
+    (match golden_of m with
+     | None -> "no-golden-schema"
+     | Some g ->
+       if g = m then "same" else
+       (try
+          let v = expand g.ms_ty (parse_value v) in
+          let corr = z_of_hex corr in
+          let frame =
+            if g.ms_response then write_response g.ms_flex g.ms_ty corr v
+            else write_request g.ms_flex g.ms_ty g.ms_api g.ms_version corr (bytes_of_hex cid) v in
+          (match frame with None -> "golden-illtyped" | Some f -> hex_of_bytes f)
+        with _ -> "golden-shape-differs"))
   | "decrec", _ -> "impl-only"
   | "nschemas", [] -> string_of_int (Array.length schema_arr)
   | _ -> "BADCASE"
